@@ -9,6 +9,7 @@ import (
 	"fmt"
 	"io"
 	"math/big"
+	"os"
 	"runtime"
 	"runtime/debug"
 	"sort"
@@ -84,8 +85,10 @@ type World struct {
 	otherTags     map[uint32]int
 	// SMPClass, when set, is the validity class ("bad", "corrupt") of the SMP payload of the
 	// attacker-made message being decoded
-	SMPClass    string
-	smpRuns     int
+	SMPClass string
+	smpRuns  int
+	// Scan enables the object-graph scan for retained secrets and texts after every call
+	Scan        bool
 	lastInLen   int
 	EvilCommits map[string]int
 	EvilRs      map[string]int
@@ -312,6 +315,11 @@ func (w *World) AbsState(p *Party) M {
 	st["rstep"] = s.AKE.RecentStep
 	st["renc"] = s.RecentEnc
 	st["inj"] = s.Injections
+	held, kept, dirty := []int{}, []int{}, []int{}
+	if w.Scan {
+		held, kept, dirty = w.scan(p, st)
+	}
+	st["held"], st["kept"], st["dirty"] = held, kept, dirty
 	st["nctr"], st["nmac"], st["npend"], st["nrsq"] = len(s.Counters), len(s.MACHistory), len(s.OldMACKeys), len(s.ResendQueue)
 	return st
 }
@@ -478,6 +486,7 @@ func (w *World) record(ev M, p *Party, cr callResult, out []M, err error) M {
 		defer func() {
 			if r := recover(); r != nil {
 				st = M{"ms": "broken"}
+				fmt.Fprintf(os.Stderr, "projection failed: %v\n%s\n", r, firstN(string(debug.Stack()), 1500))
 			}
 		}()
 		st = w.AbsState(p)
@@ -496,6 +505,13 @@ func (w *World) record(ev M, p *Party, cr callResult, out []M, err error) M {
 		w.Trace.WriteByte('\n')
 	}
 	return ev
+}
+
+func firstN(s string, n int) string {
+	if len(s) > n {
+		return s[:n]
+	}
+	return s
 }
 
 // Init writes the trace event that describes the parties of a run; it must be
@@ -758,4 +774,58 @@ func (w *World) Handshake(initiator string) bool {
 		}
 	}
 	return a.Conv.IsEncrypted() && b.Conv.IsEncrypted()
+}
+
+// scan walks everything reachable from p's conversation and reports (a) which of p's DH exponents
+// are found (in byte or big.Int form), (b) which user texts are found, (c) which exponents that
+// are not found any more still sit un-zeroed in a buffer the randomness was written into.
+func (w *World) scan(p *Party, st M) (held, kept, dirty []int) {
+	held, kept, dirty = []int{}, []int{}, []int{}
+	var blobs [][]byte
+	var paths []string
+	otr3.VerifWalk(p.Conv, func(path string, b []byte) {
+		if len(b) >= 4 && !strings.Contains(path, ".ourKeys") && !strings.Contains(path, ".ourCurrentKey") {
+			blobs = append(blobs, b)
+			paths = append(paths, path)
+		}
+	})
+	contains := func(needle []byte) bool {
+		if len(needle) < 4 {
+			return false
+		}
+		for i, b := range blobs {
+			if bytes.Contains(b, needle) {
+				if os.Getenv("VERIF_SCANDEBUG") != "" {
+					fmt.Fprintf(os.Stderr, "scan: %s holds %x...\n", paths[i], needle[:4])
+				}
+				return true
+			}
+		}
+		return false
+	}
+	secs := w.Reg.recent(p.Name, 16)
+	for _, s := range secs {
+		found := contains(s.X) || contains(bytes.TrimLeft(s.X, "\x00"))
+		if found {
+			held = append(held, s.ID)
+			continue
+		}
+		for _, a := range s.Alias {
+			if len(a) == 40 && bytes.Equal(a, s.X) {
+				dirty = append(dirty, s.ID)
+				break
+			}
+		}
+	}
+	sort.Ints(held)
+	sort.Ints(dirty)
+	n := 0
+	for id, t := range w.Reg.Texts {
+		if len(t) >= 6 && contains(t) {
+			kept = append(kept, id)
+		}
+		n++
+	}
+	sort.Ints(kept)
+	return
 }
